@@ -10,10 +10,12 @@ package main
 // component by component out of atoms of every syntactic kind; the directed sequences add a tree whose NAMES hold
 // the magic characters themselves.
 //
-// Malformed patterns: filepath.Glob checks the whole pattern before it looks at the tree (since Go 1.16); Client.Glob
-// reports ErrBadPattern only when path.Match is actually called, i.e. when the malformed component meets at least
-// one directory entry. Malformed patterns are therefore generated only where the malformed component is matched
-// against a non-empty listing (VERIF_C05_GLOB_BADANY=1 lifts that, to look at the difference).
+// Malformed patterns: filepath.Glob checks the whole pattern before it looks at the tree (since Go 1.16). The pinned
+// Client.Glob reports ErrBadPattern only when path.Match is actually called, i.e. when the malformed component meets
+// at least one directory entry (Glob("[") in an empty directory: nil, nil). That difference is a recorded finding
+// (known_findings.json, key glob/malformed-pattern-not-refused-when-nothing-is-matched, classified by mechanism in
+// c05Signature); malformed components are generated ANYWHERE in a pattern where both sides are handed the same string.
+// VERIF_C05_GLOB_BADANY=0 restricts them to places where they meet a non-empty listing.
 
 import (
 	"math/rand"
@@ -86,7 +88,7 @@ func c05GlobComponent(rng *rand.Rand, kind string) string {
 
 // c05GenGlobPattern draws a pattern of one to three components over the name universe of the random sequences. ents
 // is the tree as it is now (for the placement of malformed components, and for a bias towards directories that exist).
-func c05GenGlobPattern(rng *rand.Rand, ents []c05Entry) string {
+func c05GenGlobPattern(rng *rand.Rand, ents []c05Entry, sameString bool) string {
 	nonEmpty := map[string]bool{} // directories (not links) with at least one entry; "" is the root
 	for _, e := range ents {
 		dir := ""
@@ -108,7 +110,11 @@ func c05GenGlobPattern(rng *rand.Rand, ents []c05Entry) string {
 		if rng.Intn(2) == 0 { // something well-formed in front of it (never behind: `\` must end the component, `[a` would swallow it)
 			comp = c05GlobAtom(rng) + bad
 		}
-		if os.Getenv("VERIF_C05_GLOB_BADANY") == "1" {
+		// sameString: both sides are handed the very same pattern string (path modes abs and cwd). In mode rel package os
+		// gets <root>/<pattern>, and the standard library's up-front validation (Match(pattern, "")) depends on what stands
+		// in front of a `*`: Match("*b/[a-]", "") is ErrBadPattern, Match("/r/*b/[a-]", "") is not. There a malformed
+		// component is placed only where it meets a listing.
+		if sameString && os.Getenv("VERIF_C05_GLOB_BADANY") != "0" {
 			switch rng.Intn(3) {
 			case 0:
 				return comp
